@@ -204,7 +204,11 @@ public:
     {
         auto bPt = int(b.lower());
 
-        auto out = boost::numeric::pow(a.i, bPt);
+        // A negative power of zero is an infinity of either sign
+        // (pow(+0, -1) vs pow(-0, -1)), so be conservative like operator/
+        auto out = (bPt < 0 && a.lower() <= 0.0f && a.upper() >= 0.0f)
+            ? I(-INFINITY, INFINITY)
+            : boost::numeric::pow(a.i, bPt);
         // The behavior of raising zero to a negative power is
         // implementation-defined; it may raise a domain error (and thus
         // return NaN) or a pole error (and thus return an infinite value);
